@@ -2,6 +2,7 @@ package main
 
 import (
 	"bufio"
+	"bytes"
 	"encoding/json"
 	"fmt"
 	"math/rand"
@@ -192,6 +193,35 @@ func (c *Ctx) traceStats(trace string) {
 	c.ev.Extra["events_by_kind"] = evs
 }
 
+// mechDrift validates the compressor's hook events against DynMechTrace.  A
+// mismatch is MODEL-DRIFT: the implementation no longer works the way the
+// mechanism model says.  It is reported and recorded, never a verdict (R2).
+func (c *Ctx) mechDrift(trace string) error {
+	b, err := os.ReadFile(trace)
+	if err != nil || !bytes.Contains(b, []byte(`"ev":"Mech"`)) {
+		return nil
+	}
+	viols, _, err := c.Validate("DynMechTrace", "TV_DynMech.cfg", trace, false)
+	if err != nil {
+		return err
+	}
+	counts := map[string]int{}
+	for _, v := range viols {
+		for _, cl := range v.Clauses {
+			counts[cl]++
+		}
+	}
+	c.ev.Extra["mechanism_events_validated"] = bytes.Count(b, []byte(`"ev":"Mech"`))
+	c.ev.Extra["model_drift"] = counts
+	for cl, n := range counts {
+		fmt.Printf("MODEL-DRIFT: %s x%d: the compressor no longer follows the mechanism model (DynMechTrace); not a verdict\n", cl, n)
+	}
+	if len(viols) > 0 {
+		c.logf("first drifting event: %s", viols[0].Event)
+	}
+	return nil
+}
+
 // writerRun executes writer cases on the standard library (R3) and on fastgo,
 // validates both traces against WriterContract and reports.
 func (c *Ctx) writerRun(name string, cases []*WCase, withStd bool) (int, error) {
@@ -218,6 +248,10 @@ func (c *Ctx) writerRun(name string, cases []*WCase, withStd bool) (int, error) 
 	for _, cs := range cases {
 		cs.Family = "writer"
 		cs.Set.Impl = "fastgo"
+		if c.mech && cs.Set.Kind == "flate" && cs.Set.Dict == nil && !cs.CountOnly &&
+			(cs.Set.Level == 1 || cs.Set.Level == 2 || cs.Set.Level == -1 || (cs.Set.Window == 4096 && cs.Set.Level > 0)) {
+			cs.Mech = true
+		}
 		if cs.Ctor != "" {
 			byID[cs.ID] = cs
 			fg = append(fg, cs)
@@ -272,6 +306,9 @@ func (c *Ctx) writerRun(name string, cases []*WCase, withStd bool) (int, error) 
 		return 0, err
 	}
 	c.traceStats(trace)
+	if err := c.mechDrift(trace); err != nil {
+		return 0, err
+	}
 	c.ev.Traces += len(fg)
 	c.ev.Evaluations += len(fg)
 	c.logf("%s: %d cases executed (%.1fs), %d events validated (%.1fs), %d violating events", name, len(fg), t1.Sub(t0).Seconds(), nev, time.Since(t1).Seconds(), len(viols))
